@@ -5,6 +5,7 @@ import (
 	"math/rand"
 	"reflect"
 	"strings"
+	"verif/internal/corpus"
 
 	"github.com/llir/llvm/ir"
 	"github.com/llir/llvm/ir/constant"
@@ -41,6 +42,10 @@ func genC06(ctx *fw.Ctx) []fw.Case {
 	for b := 0; b < 8; b++ {
 		b := b
 		cases = append(cases, fw.Case{ID: fmt.Sprintf("constexpr/%d", b), Run: func(r *fw.Rec) { c06ConstExprs(r, b, 8) }})
+	}
+	for _, s := range baseSources() {
+		s := s
+		cases = append(cases, fw.Case{ID: "corpus/" + s.ID, Run: func(r *fw.Rec) { c06Corpus(r, s) }})
 	}
 	return cases
 }
@@ -219,6 +224,65 @@ func c06Compare(r *fw.Rec, id string, gm *mgen.Module, m *ir.Module, stage strin
 	}
 	if stage == "parsed" {
 		r.Sample(map[string]interface{}{"module": id, "values_checked": len(gm.Side), "bytes": len(gm.Text)})
+	}
+}
+
+// c06Corpus compares, for every value-producing instruction and terminator of
+// a corpus module LLVM accepts, the type the parser attached with the type the
+// IR library computes from the same operands (equality in both directions and
+// the same spelling: a result type that carries the name of an operand's type
+// definition is another type for every user that prints it).
+func c06Corpus(r *fw.Rec, s corpus.Source) {
+	text, err := s.Text()
+	if err != nil {
+		r.Inconclusive("source unavailable")
+		return
+	}
+	m, perr, pmsg := parseGuard(s.ID, text)
+	if pmsg != "" || perr != nil {
+		r.Tally("inputs", "corpus-not-accepted-by-parser(C01 business)")
+		return
+	}
+	if ok, _, err := llvmref.Accepts(text); err != nil || !ok {
+		r.Tally("inputs", "corpus-not-accepted-by-llvm")
+		return
+	}
+	check := func(where string, v value.Value) {
+		var got types.Type
+		if p, _, _ := fw.Guard(func() { got = v.Type() }); p || got == nil {
+			return
+		}
+		re, had, pm := recomputeType(v)
+		if !had {
+			return
+		}
+		r.Eval(1)
+		kind := instKindOf(v)
+		if pm != "" {
+			r.Violate(fw.Violation{Key: "recompute-panic/" + kind, Input: text, What: fmt.Sprintf("recomputing the type of %s %s (%s) from its operands panics: %s", kind, v.Ident(), where, firstLine(pm))})
+			return
+		}
+		if re.String() != got.String() || !types.Equal(re, got) || !types.Equal(got, re) {
+			r.Violate(fw.Violation{Key: fmt.Sprintf("parser-ir-disagree/%s/%s", kind, typeShape(got)), Input: text,
+				What:     fmt.Sprintf("%s %s in %s of %s: the parser attached type %s, the IR library computes %s from the same operands", kind, v.Ident(), where, s.ID, got, re),
+				Expected: got.String(), Observed: re.String()})
+			return
+		}
+		r.Tally("recomputed", "corpus:"+kind)
+		r.Nontrivial(s.ID + "|" + where + "|" + v.Ident())
+	}
+	for _, f := range m.Funcs {
+		f.AssignIDs()
+		for _, b := range f.Blocks {
+			for _, inst := range b.Insts {
+				if v, ok := inst.(value.Value); ok {
+					check(f.Ident(), v)
+				}
+			}
+			if v, ok := b.Term.(value.Value); ok {
+				check(f.Ident(), v)
+			}
+		}
 	}
 }
 
